@@ -2826,6 +2826,7 @@ impl<Front: SocketHandler> ConnectionH2<Front> {
         let byte_totals = self.compute_stream_byte_totals(context);
         let mut io_slices: Vec<IoSlice<'static>> = Vec::new();
 
+        let resumed_stream_write = matches!(self.expect_write, Some(H2StreamId::Other { .. }));
         if let Some(
             write_stream @ H2StreamId::Other {
                 id: stream_id,
@@ -2932,15 +2933,16 @@ impl<Front: SocketHandler> ConnectionH2<Front> {
         }
 
         // Frame boundary: control frames that had to wait for the stream
-        // resumed above go out before any other stream data.
-        self.resume_deferred_zero_flush();
-        if let Some(H2StreamId::Zero) = self.expect_write {
-            if self.flush_zero_to_socket() {
-                self.ensure_tls_flushed();
-                return MuxResult::Continue;
+        // resumed above go out before any other stream data. That includes the
+        // queued WINDOW_UPDATE and RST_STREAM frames: `writable()` only
+        // serializes them while no stream write is pending, and a peer that
+        // reads a large response slowly leaves every pass half-way through a
+        // DATA frame. Without this second chance they would wait for the end
+        // of that response, and the uploads of the connection with them.
+        if resumed_stream_write {
+            if let Some(result) = self.flush_pending_control_frames() {
+                return result;
             }
-            self.readiness.interest.insert(Ready::READABLE);
-            self.expect_write = None;
         }
 
         self.gauge_connection_state();
